@@ -73,12 +73,19 @@ def run_scenario(rng, flavour, tier, cfg_a=None, cfg_b=None, timers=False):
     sim.start(sim.b)
     sim.start(sim.a)
     budget = 6000 if tier == 'quick' else 30000
+    wait_est = rng.random() < 0.8
     steps = 0
     ended = False
     while steps < budget:
         steps += 1
         if actions and (rng.random() < 0.25 or not _any_enabled(sim)):
             act = actions.pop(0)
+            if act[0] == 'end' and wait_est and not (sim.a.h._state == 'established' and sim.b.h._state == 'established') \
+                    and not sim.a.closed() and not sim.b.closed() and _any_enabled(sim):
+                # most termination requests are only meaningful once the session exists: let it establish first
+                actions.insert(0, act)
+                sim.step_random(rng)
+                continue
             ep = sim.a if act[1] == 'a' else sim.b
             if act[0] == 'send':
                 if ep.closed():
